@@ -687,7 +687,7 @@ func checkC18(c *Case, s *Stats) error {
 // isRenderEnc: values of these encoders render on one line without '#', '=' or newlines.
 func isRenderEnc(enc string) bool {
 	switch enc {
-	case "I8", "I16", "I32", "I64", "U16", "U32", "U64", "Int", "OptU16":
+	case "I8", "I16", "I32", "I64", "U16", "U32", "U64", "Int", "OptU16", "StrictU32":
 		return true
 	}
 	return false
